@@ -4,5 +4,5 @@ CONSTANTS
   FollowUps <- Follow
   MaxSteps = 1
   Dev = {}
-INVARIANTS TruthfulExit
+INVARIANTS TruthfulExit DecodeRoundTrip SpellingIrrelevant
 CHECK_DEADLOCK FALSE
